@@ -73,3 +73,20 @@ def alias_seq(toks):
         if t["t"] == "id" and t["v"] in ALIASES and not (i + 1 < len(toks) and toks[i + 1]["v"] == "."):
             out.append([clause, t["v"]])
     return out
+
+
+def nested_selects(toks):
+    """token lists of the maximal bracketed SELECTs of a statement ( '(' SELECT ... ')' ), depth renormalised to 0"""
+    out, i, n = [], 0, len(toks)
+    while i < n:
+        t = toks[i]
+        if t["t"] == "punct" and t["v"] == "(" and i + 1 < n and toks[i + 1]["t"] == "word" and toks[i + 1]["v"] == "SELECT":
+            d = t["d"]
+            j = i + 1
+            while j < n and not (toks[j]["t"] == "punct" and toks[j]["v"] == ")" and toks[j]["d"] == d):
+                j += 1
+            out.append([dict(x, d=x["d"] - d - 1) for x in toks[i + 1:j]])
+            i = j + 1
+            continue
+        i += 1
+    return out
